@@ -7,15 +7,14 @@
      want_of / want_data       status and body the handler program asked for, read off the calls (Spec/RespSpec.v)
      hop_wf        header names passed to Set/Add/SetCanonical are RFC 9110 tokens other than "Trailer", values are
                    bytes; no SetProtocol / SetTrailer / AddTrailer call (trailers: see C03_trailers below)
-     raw_free      AppendBody / ctx.Write is never applied to a body installed with SetBodyRaw
      guard m R     the response handed to Response.Write is consistent: SkipBody iff the request was HEAD, and a body
                    stream of known size still has its Content-Length line and no chunked marker
      stream_small  a body stream holds fewer than 16^15 bytes (writeHexInt's range for one chunk)
    The full statement of the property quantifies over ALL handler programs; it is FALSE of the faithful model outside
-   guard / raw_free: the `_refuted` theorems give the witnesses (findings/C03.txt), and the theorems are proved under
-   exactly those guards. *)
+   guard: the `_refuted` theorems give the witnesses (findings/C03.txt), and the theorems are proved under
+   exactly that guard. *)
 From FH Require Import Model.Base Model.HeaderWrite Spec.HeadLines Proof.HeaderWriteProof Model.RespWrite Spec.RespParse Spec.RespSpec
-  Proof.RespParseProof Proof.RespWriteProof Proof.RespWriteMain Proof.RespWriteRefute.
+  Proof.RespParseProof Proof.RespWriteProof Proof.RespWriteMain Proof.RespWriteRefute Proof.RespWriteGuard.
 Open Scope N_scope.
 
 (* The bytes written for one request, followed by ANY bytes `tail`, are read by the independent reader as exactly one
@@ -26,7 +25,7 @@ Open Scope N_scope.
    handler's Set/Add calls here; C05/C29 own that), and programs with trailers are excluded by hop_wf. *)
 Theorem C03_exactly_one_response_partial : forall smsg date, nc smsg -> nc date ->
   forall c q m prog tail wire cl,
-  Forall hop_wf prog -> raw_free false prog = true -> q_head q = is_head m ->
+  Forall hop_wf prog -> q_head q = is_head m ->
   guard m (finished c q prog) -> stream_small (finished c q prog) ->
   status_in_scope (w_status (want_of prog)) = true ->
   serve_one smsg date c q prog = (wire, WrOk, cl) ->
@@ -36,6 +35,30 @@ Theorem C03_exactly_one_response_partial : forall smsg date, nc smsg -> nc date 
     p_trailers p = [] /\ p_rest p = tail /\ p_until_close p = false.
 Proof. exact exactly_one_response. Qed.
 Print Assumptions C03_exactly_one_response_partial.
+
+(* A syntactic class for which the guard always holds (hop_ok = hop_wf, and: no SkipBody call; no status code 1xx / 204 /
+   304 anywhere in the program, also not in ctx.Error; Content-Length is only managed by SetContentLength / SetBodyStream /
+   the body setters: no Set / Add / SetCanonical / Del of a header named Content-Length; Del only of token names).
+   For every program of the class, every server configuration, request method / version / Connection option: *)
+Theorem C03_guard_of_class : forall c q m prog, Forall hop_ok prog -> q_head q = is_head m -> guard m (finished c q prog).
+Proof. exact guard_of_class. Qed.
+Print Assumptions C03_guard_of_class.
+
+Theorem C03_exactly_one_response_class_partial : forall smsg date, nc smsg -> nc date ->
+  forall c q m prog tail wire cl,
+  Forall hop_ok prog -> q_head q = is_head m -> stream_small (finished c q prog) ->
+  status_in_scope (w_status (want_of prog)) = true ->
+  serve_one smsg date c q prog = (wire, WrOk, cl) ->
+  exists p, resp_parse m (wire ++ tail) = Some p /\
+    p_status p = w_status (want_of prog) /\
+    p_body p = (if bodyless m (w_status (want_of prog)) then [] else want_data (want_of prog)) /\
+    p_trailers p = [] /\ p_rest p = tail /\ p_until_close p = false.
+Proof.
+  intros smsg date Hs Hd c q m prog tail wire cl Hok Hq Hsm Hsc E.
+  assert (Hwf : Forall hop_wf prog) by (apply Forall_forall; intros o Ho; rewrite Forall_forall in Hok; exact (proj1 (Hok o Ho))).
+  exact (exactly_one_response smsg date Hs Hd c q m prog tail wire cl Hwf Hq (guard_of_class c q m prog Hok Hq) Hsm Hsc E).
+Qed.
+Print Assumptions C03_exactly_one_response_class_partial.
 
 (* the same at the level of Response.Write, for every consistent Response state (not only reachable ones) *)
 Theorem C03_write_parses : forall smsg date, nc smsg -> nc date ->
@@ -52,7 +75,7 @@ Print Assumptions C03_write_parses.
 (* HEAD requests and 204 / 304 statuses: the wire is the head and nothing else *)
 Theorem C03_no_body_for_head_204_304 : forall smsg date, nc smsg -> nc date ->
   forall c q m prog wire cl,
-  Forall hop_wf prog -> raw_free false prog = true -> q_head q = is_head m ->
+  Forall hop_wf prog -> q_head q = is_head m ->
   guard m (finished c q prog) -> stream_small (finished c q prog) ->
   status_in_scope (w_status (want_of prog)) = true ->
   bodyless m (w_status (want_of prog)) = true ->
@@ -65,7 +88,7 @@ Print Assumptions C03_no_body_for_head_204_304.
 (* the next response on the connection starts exactly where this one ends *)
 Theorem C03_next_response_starts_at_end : forall date smsg1 smsg2 c q1 q2 m1 m2 prog1 prog2 w1 w2 cl1 cl2,
   nc date -> nc smsg1 -> nc smsg2 ->
-  Forall hop_wf prog1 -> Forall hop_wf prog2 -> raw_free false prog1 = true -> raw_free false prog2 = true ->
+  Forall hop_wf prog1 -> Forall hop_wf prog2 ->
   q_head q1 = is_head m1 -> q_head q2 = is_head m2 ->
   guard m1 (finished c q1 prog1) -> guard m2 (finished c q2 prog2) ->
   stream_small (finished c q1 prog1) -> stream_small (finished c q2 prog2) ->
@@ -100,45 +123,42 @@ Theorem C03_stream_size_mismatch_writerto_refuted :
     option_map (fun x => match x with (st, fs, after) => (st, values_of "content-length" fs, length after) end) (head_parse wire)
       = Some (200%Z, [s2b "5"], 20%nat).
 Proof. exact refuted_writerto_oversize. Qed.
-(* key=manual-content-length-on-chunked-stream: both framing headers, body unchunked, rejected by the reader *)
-Theorem C03_exactly_one_response_refuted_manual_cl :
-  Forall hop_wf prog_manual_cl /\ raw_free false prog_manual_cl = true /\ w_status (want_of prog_manual_cl) = 200%Z /\
-  exists wire, serve_one ok d0 cfg0 q_get prog_manual_cl = (wire, WrOk, false) /\
-    values_of "content-length" (match head_parse wire with Some (_, fs, _) => fs | None => [] end) = [s2b "5"] /\
-    values_of "transfer-encoding" (match head_parse wire with Some (_, fs, _) => fs | None => [] end) = [s2b "chunked"] /\
-    resp_parse MGet wire = None.
-Proof. exact refuted_manual_cl. Qed.
 (* key=skipbody-on-non-head: "Content-Length: 5" and no body; the reader takes "HTTP/" of the next response as body *)
 Theorem C03_exactly_one_response_refuted_skipbody :
-  Forall hop_wf prog_skipbody /\ raw_free false prog_skipbody = true /\ w_status (want_of prog_skipbody) = 200%Z /\
+  Forall hop_wf prog_skipbody /\ w_status (want_of prog_skipbody) = 200%Z /\
   exists wire, serve_one ok d0 cfg0 q_get prog_skipbody = (wire, WrOk, false) /\
     resp_parse MGet wire = None /\
     option_map p_body (resp_parse MGet (wire ++ second_wire)) = Some (s2b "HTTP/").
 Proof. exact refuted_skipbody. Qed.
 (* key=stream-length-header-lost: no length, no chunking, no close: the next response is read as this body *)
 Theorem C03_exactly_one_response_refuted_length_lost :
-  Forall hop_wf prog_length_lost /\ raw_free false prog_length_lost = true /\ w_status (want_of prog_length_lost) = 200%Z /\
+  Forall hop_wf prog_length_lost /\ w_status (want_of prog_length_lost) = 200%Z /\
   exists wire, serve_one ok d0 cfg0 q_get prog_length_lost = (wire, WrOk, false) /\
     option_map (fun p => (p_until_close p, beq (p_body p) second_wire)) (resp_parse MGet (wire ++ second_wire)) = Some (true, true).
 Proof. exact refuted_length_lost. Qed.
-(* key=appendbody-after-setbodyraw: the raw body is dropped (guard holds, raw_free does not) *)
-Theorem C03_body_refuted_raw_append :
-  Forall hop_wf prog_raw_append /\ guard MGet (finished cfg0 q_get prog_raw_append) /\
+(* ---- former findings, repaired in /repo (6f630cd, 8762a11): now instances of the theorems ---- *)
+Example C03_ex_manual_cl_fixed :
+  Forall hop_wf prog_manual_cl /\ guard MGet (finished cfg0 q_get prog_manual_cl) /\
+  exists wire, serve_one ok d0 cfg0 q_get prog_manual_cl = (wire, WrOk, false) /\
+    values_of "transfer-encoding" (match head_parse wire with Some (_, fs, _) => fs | None => [] end) = [] /\
+    option_map (fun p => (p_body p, p_rest p)) (resp_parse MGet wire) = Some (s2b "hello", []).
+Proof. exact fixed_manual_cl. Qed.
+Example C03_ex_raw_append_fixed :
   want_data (want_of prog_raw_append) = s2b "XYZd" /\
   exists wire, serve_one ok d0 cfg0 q_get prog_raw_append = (wire, WrOk, false) /\
-    option_map p_body (resp_parse MGet wire) = Some (s2b "d").
-Proof. exact refuted_raw_append. Qed.
+    option_map p_body (resp_parse MGet wire) = Some (s2b "XYZd").
+Proof. exact fixed_raw_append. Qed.
 
 (* ---- non-vacuity: the guard holds for ordinary programs, and the theorem's conclusion is what one expects ---- *)
 Definition ex_prog : list hop :=
   [HHdr (ROSetStatusCode 201); HHdr (ROSet (s2b "X-Foo") (s2b "bar")); HSetBody (s2b "hel"); HAppendBody (s2b "lo")].
 Example C03_ex_plain :
-  Forall hop_wf ex_prog /\ raw_free false ex_prog = true /\ guard MGet (finished cfg0 q_get ex_prog) /\
+  Forall hop_wf ex_prog /\ guard MGet (finished cfg0 q_get ex_prog) /\
   option_map (fun p => (p_status p, p_body p, p_rest p)) (resp_parse MGet (fst (fst (serve_one (s2b "Created") d0 cfg0 q_get ex_prog)) ++ s2b "NEXT"))
     = Some (201%Z, s2b "hello", s2b "NEXT").
 Proof.
   split; [repeat constructor; cbn [hop_wf rop_wf]; repeat split; try reflexivity; repeat constructor|].
-  split; [reflexivity|]. split; [split; [reflexivity|intros s E; discriminate E]|]. vm_compute. reflexivity.
+  split; [split; [reflexivity|intros s E; discriminate E]|]. vm_compute. reflexivity.
 Qed.
 Definition ex_chunked : list hop := [HSetBodyStream (-1) (mkStream SKReader [s2b "abc"; s2b "defg"] false)].
 Example C03_ex_chunked :
